@@ -94,7 +94,7 @@ def body(ctx, lead_of):
     drv = ctx.build_go("c08")
 
     # ---- 2a. TLC as generator (the same run prints the alphabet with the design verdicts: spec side and driver side must agree)
-    ngen = ctx.pick(260, 6500)
+    ngen = ctx.pick(220, 2200)
     gen, _ = ctx.tlc_gen("MC_PeerInputGen", "MC_PeerInputGen.cfg", simulate=ngen, depth=16, timeout=1200)
     hdr = [x for x in gen if "classes" in x]
     if not hdr:
@@ -123,6 +123,17 @@ def body(ctx, lead_of):
     # the same lead in the other two queueing states (the model says they are equivalent; check on the code)
     for st in ("meta", "alloc", "verify"):
         add(st, 1, lead["h"], "lead")
+    # protocol-depth templates: bring the attacker into a role first (metadata source / piece source), then every class
+    # whose handling depends on that role (info downloader / piece downloader present)
+    meta_src = [c for c in classes if c in ("ext.hs.ok", "ext.hs.wrongsize", "ext.hs.atmax", "ext.hs.negreqq", "ext.hs.hugereqq")]
+    meta_dep = [c for c in classes if c.startswith("ext.meta.")]
+    for a in meta_src:
+        for b in meta_dep:
+            add("meta", 1, [{"pe": 1, "cls": a}, {"pe": 1, "cls": b}], "tmpl")
+    piece_dep = [c for c in classes if c.startswith(("piece.", "reject.", "choke", "have.oob", "cancel."))]
+    for st in ("down", "verify"):
+        for b in piece_dep:
+            add(st, 1, [{"pe": 1, "cls": "unchoke"}, {"pe": 1, "cls": "bitfield.full"}, {"pe": 1, "cls": b}, {"pe": 1, "cls": b}], "tmpl")
     singles = [(st, c) for st in STATES for c in classes]
     rng.shuffle(singles)
     for st, c in singles[:ctx.pick(90, len(singles))]:
@@ -130,7 +141,7 @@ def body(ctx, lead_of):
     for g in gen:
         add(g["lab"], g["npe"], g["h"], "gen")
     # byte-level mutations of one message of a generated sequence
-    nmut = ctx.pick(50, 1500)
+    nmut = ctx.pick(50, 500)
     pool = [s for s in scen if s["kind"] == "gen"]
     for i in range(nmut):
         if not pool:
@@ -161,7 +172,7 @@ def body(ctx, lead_of):
                 hs0.append(p)     # no extension handshake under test on this peer: the ping barrier can be used
         scenarios.append({"id": i, "st": s["lab"], "npe": npe, "hs0": hs0, "msgs": msgs, "split": max(split, 0), "kind": s["kind"]})
     vlib.log("scenarios: %d (%s)" % (len(scenarios), ", ".join("%s=%d" % (k, sum(1 for s in scenarios if s["kind"] == k))
-                                                                 for k in ("lead", "single", "gen", "mut"))))
+                                                                 for k in ("lead", "tmpl", "single", "gen", "mut"))))
 
     # ---- 3a. reader level
     streams = []
@@ -169,7 +180,7 @@ def body(ctx, lead_of):
         for c in classes:
             streams.append({"seq": [c], "maxmsg": mm, "frag": 0})
             streams.append({"seq": [c], "maxmsg": mm, "frag": rng.randrange(1, 1 << 30)})
-    nstreams = ctx.pick(400, 6000)
+    nstreams = ctx.pick(400, 4000)
     per_peer = []
     for s in scenarios:
         for p in range(1, s["npe"] + 1):
@@ -184,7 +195,7 @@ def body(ctx, lead_of):
                      and ".all" not in c]
     rin = ctx.path("reader_in.json")
     with open(rin, "w") as fh:
-        json.dump({"n": 4, "streams": streams, "alloc": alloc_classes, "allocmax": [32768, 65536]}, fh)
+        json.dump({"n": 12, "streams": streams, "alloc": alloc_classes, "allocmax": [32768, 65536]}, fh)
     rout = ctx.path("reader.ndjson")
     ctx.run_drv(drv, ["reader", "-in", rin, "-out", rout, "-seed", str(ctx.seed)], timeout=900)
     rlines, rreport = judge_reader(ctx, rout, streams, verd)
@@ -195,7 +206,7 @@ def body(ctx, lead_of):
         json.dump({"scenarios": scenarios}, fh)
     sout = ctx.path("session.ndjson")
     sdir = ctx.path("sess", "x")
-    ctx.run_drv(drv, ["session", "-in", sin, "-out", sout, "-dir", os.path.dirname(sdir), "-workers", str(ctx.pick(8, 10))],
+    ctx.run_drv(drv, ["session", "-in", sin, "-out", sout, "-dir", os.path.dirname(sdir), "-workers", str(ctx.pick(8, 12))],
                 timeout=ctx.pick(900, 3000))
     slines, sreport = judge_session(ctx, sout, scenarios, verd)
 
@@ -291,19 +302,31 @@ def judge_reader(ctx, path, streams, verd):
 
 def hist_class(sc, verd):
     """History class of a scenario for signatures: the replay lead pattern (a queued message that closes the peer at
-    replay time followed by a queued message whose replay starts a piece download), else the sequence itself."""
+    replay time followed by a queued message whose replay starts a piece download), else the sequence itself.
+    A byte-level mutation of a queueable message may turn it into a closer (index / length changed) or leave it a
+    starter, so it counts as both."""
     if sc["st"] in ("meta", "alloc", "verify"):
         for p in range(1, sc["npe"] + 1):
             closed = False
             for m in sc["msgs"]:
                 if m["pe"] != p:
                     continue
-                v = verd.get(m["cls"])
-                if v is None or v["rv"] != "deliver" or not v["queueable"]:
-                    continue
-                if closed and v["starter"]:
+                c = m["cls"]
+                if c.startswith("mut:"):
+                    v = verd.get(c.split(":", 3)[3])
+                    if v is None or not (v["queueable"] or v["rv"] == "desync"):
+                        continue
+                    closer = starter = True
+                elif verd.get(c, {}).get("rv") == "desync":
+                    closer = starter = True      # misframed bytes may be read as any queueable message
+                else:
+                    v = verd.get(c)
+                    if v is None or v["rv"] != "deliver" or not v["queueable"]:
+                        continue
+                    closer, starter = v["closer"], v["starter"]
+                if closed and starter:
                     return "closed-peer-replay"
-                if v["closer"]:
+                if closer:
                     closed = True
     return "seq:" + ",".join("%d:%s" % (m["pe"], m["cls"]) for m in sc["msgs"])[:300]
 
@@ -331,7 +354,7 @@ def judge_session(ctx, path, scenarios, verd):
         raise vlib.MachineryError("session driver did not run scenarios %s" % missing[:10])
     if len(skips) > max(3, len(scenarios) // 25):
         raise vlib.MachineryError("too many scenarios could not be set up (%d): %s" % (len(skips), skips[:5]))
-    ctx.extra["session_setup_skips"] = len(skips)
+    ctx.extra["session_setup_skips"] = {"count": len(skips), "first": [w[:160] for _, w in skips[:4]]}
     skipped = set(i for i, _ in skips)
     conf = {}       # (state, class) -> observed result of single-message scenarios
     memmax = [0]
@@ -363,6 +386,9 @@ def judge_session(ctx, path, scenarios, verd):
             elif op == "Honest":
                 lines.append((owner, {"op": "Honest", "ok": e["ok"]}))
                 ctx.oblig("C08.honest")
+            elif op == "Reconn":
+                lines.append((owner, {"op": "Reconn", "ok": e["ok"]}))
+                ctx.oblig("C08.dropOrHandle")
             elif op == "Mem":
                 lines.append((owner, {"op": "Mem", "delta": min(int(e["delta"]), BIG - 1)}))
                 ctx.oblig("C08.alloc")
@@ -407,6 +433,14 @@ def judge_session(ctx, path, scenarios, verd):
         if obl in ("C08.crash", "C08.hang"):
             sig = "tag=%s site=%s st=%s hist=%s" % (tag, site, sc["st"], hist)
             what = "%s in state %s after %s: %s" % ("client crashed" if obl == "C08.crash" else "torrent loop blocked for ever", sc["st"], seq, site[:300])
+        elif kind == "zombie-peer":
+            lk = {0: "none", 1: "peer", 2: "ip-only"}.get(next((e.get("lkind", 0) for e in raw if e["op"] == "Obs" and e.get("pe") == ev.get("pe")
+                                                              and e.get("alive") == ev.get("alive") and e.get("listed") == ev.get("listed")), 0), "?")
+            sig = "tag=%s st=%s alive=%s listed=%s hist=%s" % (tag, sc["st"], ev.get("alive"), lk, hist)
+            what = "%s in state %s: attacker %s socket %s but rain lists %s, after %s" % (tag, sc["st"], ev.get("pe"), "open" if ev.get("alive") else "closed", lk, seq)
+        elif kind == "ip-blocked-after-stop":
+            sig = "tag=%s st=%s" % (tag, sc["st"])
+            what = "an address that was in its handshake when the torrent was stopped cannot connect after the restart"
         else:
             sig = "tag=%s st=%s hist=%s" % (tag, sc["st"], hist)
             what = "%s in state %s (attacker %s) after %s" % (tag, sc["st"], ev.get("pe", 0), seq)
